@@ -54,7 +54,7 @@ def check(ctx: Ctx) -> str:
             if isinstance(n, ast.Attribute) and ast.unparse(n.value) == "self":
                 if n.attr in shared:
                     par = getattr(n, "_parent", None)
-                    mut = False
+                    mut = isinstance(n.ctx, (ast.Store, ast.Del))  # rebinding the container
                     if isinstance(par, ast.Attribute) and isinstance(getattr(par, "_parent", None), ast.Call) and par.attr in MUTATORS:
                         mut = True
                     if isinstance(par, ast.Subscript) and isinstance(par.ctx, (ast.Store, ast.Del)):
@@ -88,6 +88,21 @@ def check(ctx: Ctx) -> str:
                       f"LRUCache.{name} {'mutates' if mut else 'reads'} self.{st} outside `with self.{lock_name}` although the method updates shared state: lookup/touch/evict are not atomic",
                       f"src/jinja2/utils.py:{n.lineno}", detail={"method": name, "access": ast.unparse(getattr(n, '_parent', n))[:50]})
     ctx.floor("locked LRUCache methods", locked_methods, 4)
+    # one lock per cache object: the lock and the containers it protects are created when the
+    # object is (re)built - __init__ / __setstate__ through _postinit - and never replaced on a
+    # live cache: a thread blocked on the old lock would enter its critical section next to a
+    # thread holding the new one
+    builders = {"__init__", "__setstate__", "_postinit"}
+    for name, fn in ci.methods.items():
+        if name in builders:
+            continue
+        for c in astq.calls(fn):
+            if astq.callee(c) == "self._postinit":
+                ctx.bad(f"utils:LRUCache.{name}", "re-runs _postinit on a live cache", f"LRUCache.{name} calls self._postinit(), which creates a new `{lock_name}`: callers blocked on the old lock and callers taking the new one then mutate the cache concurrently (capacity exceeded, recency order lost)", f"src/jinja2/utils.py:{c.lineno}")
+        for n in ast.walk(fn):
+            if isinstance(n, ast.Attribute) and ast.unparse(n.value) == "self" and n.attr in (shared | {lock_name}) and isinstance(n.ctx, (ast.Store, ast.Del)):
+                ctx.bad(f"utils:LRUCache.{name}", f"rebinds self.{n.attr} on a live cache", f"LRUCache.{name} replaces self.{n.attr}: the queue-method aliases bound in _postinit (and other threads) keep using the old object", f"src/jinja2/utils.py:{n.lineno}")
+    ctx.ok("lock-identity", trivial=True)
     # the three primitives exist and are the locked ones
     for prim in ("__getitem__", "__setitem__", "__delitem__", "clear"):
         ctx.need(prim in ci.methods, f"LRUCache.{prim} vanished")
